@@ -252,7 +252,9 @@ def recipe_for_hint(hint, depth=0, dates=True, objects=True):
 
 NONE_FOR_REQUIRED = [True]  # module switch: occasionally pass None for a required top-level field
 SHADOWING = ["json", "yaml", "dict", "copy", "cast", "merge_with", "from_partial", "parse_obj", "Config", "Plugin", "Fields"]
-ONE_MODEL_PER_UNION = [False]  # module switch (set by C14): at most one nested model among the members of a Union
+# at most one nested model among the members of a Union: two models whose fields are all optional both accept e.g. {}
+# (and partial models accept any object), so such a Union is order-dependent on input like the string-like members
+ONE_MODEL_PER_UNION = [True]
 EXTRAS = [True]  # module switch: generate undeclared extra fields for Extra.allow models
 
 
